@@ -1,6 +1,7 @@
 package props
 
 import (
+	"bytes"
 	"fmt"
 	"testing"
 )
@@ -91,6 +92,17 @@ func TestC20Enum(t *testing.T) {
 			})
 		}
 	}
+	descs = append(descs, "one address behind 255 .. 131,072 filler bytes (plain and dotted filler): offsets beyond 8 and 16 bits")
+	jobs = append(jobs, func(emit func(CaseText) bool) {
+		for _, n := range []int{255, 256, 257, 4095, 4096, 65533, 65534, 65535, 65536, 65537, 65540, 70000, 131072} {
+			for _, filler := range []string{"x", "x.", "9.x"} {
+				s := append(bytes.Repeat([]byte(filler), n/len(filler)+1)[:n], "y10.0.0.254z"...)
+				if !emit(CaseText{S: s}) {
+					return
+				}
+			}
+		}
+	})
 	C20IP4.RunJobs(t, descs, jobs)
 }
 
